@@ -118,6 +118,13 @@ func (f *TimeBucketInfo) Validate() error {
 	if len(f.elementTypes) > maxNumElements {
 		return fmt.Errorf("too many columns: %d (a bucket holds at most %d)", len(f.elementTypes), maxNumElements)
 	}
+	for _, name := range f.elementNames {
+		// the header keeps elementNameHeaderBytes bytes per name and reads them back NUL-trimmed
+		if len(name) > elementNameHeaderBytes || string(bytes.Trim([]byte(name), "\x00")) != name {
+			return fmt.Errorf("column name %q is longer than %d bytes or starts or ends with a NUL byte",
+				name, elementNameHeaderBytes)
+		}
+	}
 	return nil
 }
 
